@@ -349,7 +349,66 @@ func (p c19) faithful(c *core.Ctx) {
 }
 
 // e2e: generated tags on StructOf holders behave as the parsed arguments say.
+// isolated: arguments belong to the point whose tag was parsed. A user post-processor that relaxes the
+// points of its own tag at run time (Property.SetArg, as unittest/component/modified_inject does) does
+// not make any other point optional - not one with a byte-identical tag value, not in a later start.
+func (p c19) isolated(c *core.Ctx) {
+	tv := fmt.Sprintf("ghost-%d", c.Rng.Intn(4)) + []string{"", ",x=1 2", ",qualifier=g", ",required=true", ",note=[a,b] c"}[c.Rng.Intn(5)]
+	otherTag := []string{"wire", "wire", "mywire"}[c.Rng.Intn(3)]
+	mk := func(tag string) any {
+		return world.NewHolder(world.BuildStruct([]world.FieldSpec{{Name: "F", Type: world.TypeIA, Tag: world.WireTag(tag, tv)}}))
+	}
+	scan := func(tag string) any {
+		return &userScanner{processors.DefaultTagScanDefinitionRegistryPostProcessor{NodeType: component_definition.PropertyTypeComponent, Tag: tag}}
+	}
+	steps := c.Rng.Perm(3)
+	var hist []string
+	for _, st := range steps {
+		var comps []any
+		var want string
+		switch st {
+		case 0: // only the relaxed point
+			comps, want = []any{mk("opt"), scan("opt"), &world.RelaxPP{Tag: "opt"}}, "ok"
+		case 1: // only the strict point
+			comps, want = []any{mk(otherTag)}, "error"
+		default: // both
+			comps, want = []any{mk("opt"), mk(otherTag), scan("opt"), &world.RelaxPP{Tag: "opt"}}, "error"
+		}
+		if otherTag == "mywire" && st != 0 {
+			comps = append(comps, &userScanner2{processors.DefaultTagScanDefinitionRegistryPostProcessor{NodeType: component_definition.PropertyTypeComponent, Tag: "mywire"}})
+		}
+		r := world.Start(&world.Scenario{}, world.Options{Extra: comps})
+		c.Count("e2e_starts", 1)
+		hist = append(hist, fmt.Sprintf("start %d -> %s", st, r.Outcome()))
+		detail := map[string]any{"tag_value": tv, "strict_tag": otherTag, "starts (0: relaxed opt point only, 1: strict point only, 2: both)": hist, "outcome": core.Short(r.OutcomeDetail(), 300)}
+		if abnormal(r.Outcome()) {
+			c.Fail("", fmt.Sprintf("tag value %q: %s", tv, r.OutcomeDetail()), detail)
+			return
+		}
+		if r.Outcome() != want {
+			if want == "error" {
+				c.Fail("", fmt.Sprintf("the required unsatisfiable point %s:%q started successfully after a post-processor relaxed another point (opt:%q) with the same tag value", otherTag, tv, tv), detail)
+			} else {
+				c.Fail("", fmt.Sprintf("the point opt:%q, relaxed at run time by its post-processor, still failed the start: %s", tv, core.Short(r.OutcomeDetail(), 200)), detail)
+			}
+			return
+		}
+	}
+	c.Count("isolated_argument_cases", 1)
+	c.Nontrivial("isolated:" + tv + otherTag + fmt.Sprint(steps))
+}
+
+type userScanner2 struct {
+	processors.DefaultTagScanDefinitionRegistryPostProcessor
+}
+
+func (u *userScanner2) Naming() string { return "verif.userscanner2" }
+
 func (p c19) e2e(c *core.Ctx) {
+	if c.Index%5 == 2 {
+		p.isolated(c)
+		return
+	}
 	extra := func() string {
 		var parts []string
 		for i := 0; i < c.Rng.Intn(3); i++ {
